@@ -47,7 +47,7 @@ CLAIMS = {
  'C06': dict(level='proof', design='6 C06',
    text='One step (loop body) of XdlParser::parse proved for EVERY byte and EVERY parser configuration satisfying a representation invariant (context-stack shape, comment markers, state/container consistency, unicode counter): '
         'no stack underflow, indices in range, invariant preserved, at most one push-back per character, container contexts paired with value-list pushes/pops; the constructor establishes the invariant. '
-        'Prefix rejection ingredients: open containers decrease only on a closing bracket (one per input character), a string is left only at its quote, and value() returns a value only when nothing is open. '
+        'Prefix rejection ingredients: open containers decrease only on a closing bracket (one per input character), a string is left only at its quote, and value() returns a value only when nothing is open; an escape returns to the state it was met in; a value is placed into an object only under a pending member name (put() never reads an empty name stack); decode() always feeds the flushing blank. '
         'By induction over the input bytes: total and memory-safe on any byte string, and chunk-independent (the step has no state outside the parser object).',
    note=TB + 'Containers are ghost models: context stack = 3-entry window + depth with C01 top/pop preconditions, token buffer = 15 characters + length, Var tree = counters. NOT decided: agreement with an independent JSON parser on all RFC 8259 documents, the value tree built by put()/Var, atof, prefix rejection as a separate theorem, Json::decode wrapper (parser reuse across calls).',
    technique='CBMC code contract (inductive invariant) on the extracted loop body'),
@@ -73,7 +73,7 @@ CLAIMS = {
    technique='CBMC code contracts (DFCC) per template instantiation, ghost-index byte specification'),
  'C17': dict(level='proof', design='6 C17',
    text='Only what asl itself computes: one turn of TextFile::readLine for lines of any length across the 255-byte chunks (buffer handed to fgets inside the capacity, indices in range, LF and one preceding CR cut, progress or exit each turn); '
-        'one turn of the UTF-16LE / UTF-16BE loops of text() (unit assembly in the file byte order, CR LF folding never shrinks an empty array); the plain branch of text() for every file size and read result; File::close closes once and drops the cached FileInfo; the BOM probe of text() starts the text at offset 3 exactly for EF BB BF and at 0 otherwise; the block loop of Directory::copy reports success only after every byte was written (any file size).',
+        'one turn of the UTF-16LE / UTF-16BE loops of text() (unit assembly in the file byte order, CR LF folding never shrinks an empty array); the plain branch of text() for every file size and read result; File::close closes once and drops the cached FileInfo; File::put opens for writing (create/truncate) also for an empty array; TextFile << const char* writes the text verbatim (never as a printf format); the BOM probe of text() starts the text at offset 3 exactly for EF BB BF and at 0 otherwise; the block loop of Directory::copy reports success only after every byte was written (any file size).',
    note=TB + 'fgets/fread are stubs with their ISO C contracts; Strings/Arrays are ghost lengths with the C03/C01 contracts. NOT decided (theorems about the OS or outside the contract language): that written bytes come back from disk, size(), append/reopen histories, lines(), Directory copy/move, files containing NUL bytes.',
    technique='CBMC code contracts on extracted loop bodies with libc/OS calls as contract stubs'),
  'C19': dict(level='proof', design='6 C19',
@@ -89,7 +89,7 @@ CLAIMS = {
    technique='CBMC code contracts on extracted code regions with callee contracts as stubs'),
  'C10': dict(level='proof', design='6 C10',
    text='Framing arithmetic only: Socket_::read / Socket_::write (blocking) hand the caller\'s buffer to the OS consecutively, each byte exactly once, never beyond its end, and terminate; '
-        'HttpMessage::write sends a body of any length up to 10^8 in consecutive blocks of 1..128000 bytes covering it exactly once, each framed as hex-size CRLF data CRLF in chunked mode. writeFile sends exactly the bytes of the range, never more than the announced length. Query values: parseQuery splits, replaces + and then percent-decodes (unit shared with C09). Receiving side (units shared with C09): each turn of the body/header loops consumes input or ends; a chunk-size line read is always followed by reading that chunk\'s CRLF (nothing of the message is left in a kept-alive connection).',
+        'HttpMessage::write sends a body of any length up to 10^8 in consecutive blocks of 1..128000 bytes covering it exactly once, each framed as hex-size CRLF data CRLF in chunked mode. writeFile sends exactly the bytes of the range, never more than the announced length. HttpServer::serve compares the Connection option in lower case. Query values: parseQuery splits, replaces + and then percent-decodes (unit shared with C09). Receiving side (units shared with C09): each turn of the body/header loops consumes input or ends; a chunk-size line read is always followed by reading that chunk\'s CRLF (nothing of the message is left in a kept-alive connection).',
    note=TB + 'The exchange property as a whole is NOT decided: end-to-end equality of method/headers/status/body over real sockets, keep-alive, many clients in flight (schedules), file bodies with ranges, readBody/readHeaders text parsing. OS read/send are stubs with their POSIX contracts.',
    technique='CBMC code contracts with loop contracts on extracted bodies, OS calls as contract stubs'),
  'C11': dict(level='proof', design='6 C11',
